@@ -433,6 +433,8 @@ class Interp:
             kind = st["k"]
             if kind == "let":
                 v = self.ev(st["init"], env) if st["init"] is not None else None
+                if st["pat"]["k"] == "typed" and isinstance(v, Obj):
+                    v = self.coerce_into(v, st["pat"]["ty"])
                 if st["else"] is not None:
                     e2 = dict(env)
                     if self.match(st["pat"], v, e2):
@@ -806,7 +808,29 @@ def _interp_methods(cls):
             for (f, sty, nm), fns in self.dump.methods.items():
                 if nm == name and f == file:
                     out += [(f, fn) for fn in fns if fn.get("trait_default")]
+            if len(out) > 1:
+                # several traits declare a default of this name: keep those the type is known to implement
+                known = set()
+                for (f, sty, nm), fns in self.dump.methods.items():
+                    if f == file and sty.split("<")[0] == ty:
+                        known.update((fn.get("trait") or "").replace(" ", "").split("<")[0] for fn in fns)
+                sel = [c for c in out if (c[1].get("trait") or "").replace(" ", "") in known]
+                if sel:
+                    out = sel
         return out
+
+    def coerce_into(self, v, ty):
+        """`let x: T = <struct value>.into()`: apply `impl From<..V..> for T` when T is a repo enum and V the value's type"""
+        import re
+        names = re.findall(r"[A-Za-z_][A-Za-z_0-9]*", ty)
+        for (f, sty, nm), fns in self.dump.methods.items():
+            if nm != "from" or sty not in names or sty == v.ty:
+                continue
+            for fn in fns:
+                tr = (fn.get("trait") or "").replace(" ", "")
+                if re.search(r"[<:]%s>" % re.escape(v.ty), tr) and tr.startswith("From<"):
+                    return self.call_fn(f, fn, [v])
+        return v
 
     def try_repo_method(self, recv, name, args):
         file = getattr(recv, "file", None)
@@ -880,6 +904,7 @@ def _interp_methods(cls):
     cls.find_assoc = find_assoc
     cls.methods_of = methods_of
     cls.try_repo_method = try_repo_method
+    cls.coerce_into = coerce_into
     cls.call_method_of = call_method_of
     cls.call_tryfrom = call_tryfrom
     cls.call_display = call_display
